@@ -38,6 +38,7 @@ class Ref:
         self.q = {id(a): (float(m.atomic_charges[i]) if has_q else None) for i, a in enumerate(m.atoms)}
         self.bonds = list(m.bonds)
         self.n_new = 0
+        self.deleted = []          # atoms removed earlier in the history (stale references a caller may still hold)
 
     def bonds_of(self, a):
         return [b for b in self.bonds if b.a1 is a or b.a2 is a]
@@ -62,6 +63,8 @@ def moves(m, ref, subset):
     mv = [("add_q", 0, 0), ("add_noq", 0, 0), ("new_atom", 0, 0)]
     mv += [("del_obj", i, 0) for i in range(n)]
     mv += [("del_idx", i, 0) for i in range(-2, n + 2)]
+    if ref.deleted and n:
+        mv += [("connect_stale", 0, 0), ("connect_stale", n - 1, 1), ("del_stale", 0, 0)]
     if subset:
         return mv
     mv += [("del_label", i, 0) for i in range(n)]
@@ -152,6 +155,20 @@ def apply(m, ref, mv):
         for bd in ref.bonds_of(target):
             ref.bonds.remove(bd)
         ref.atoms.remove(target)
+        ref.deleted.append(target)
+        return True
+    if name in ("connect_stale", "del_stale"):
+        # a reference to an atom deleted earlier: the call may only fail; whatever it does, the molecule must stay aligned
+        stale = ref.deleted[0]
+        try:
+            if name == "del_stale":
+                m.del_atom(stale)
+            elif b == 0:
+                m.connect(ref.atoms[a], stale)
+            else:
+                m.connect(stale, ref.atoms[a])
+        except (ValueError, IndexError):
+            pass
         return True
     if name == "connect":
         bd = m.connect(ref.atoms[a], ref.atoms[b])
@@ -191,6 +208,7 @@ def apply(m, ref, mv):
             for x in ref.bonds_of(g):
                 ref.bonds.remove(x)
             ref.atoms.remove(g)
+            ref.deleted.append(g)
         ap = m.atoms[-1]
         if not (ap.atype == AtomType.AttachmentPoint and ap.element == Element.Unknown):
             return False
@@ -297,7 +315,7 @@ def h_edit1(cls_sel: int, kind: int, s1: int) -> bool:
 def h_edit2(cls_sel: int, kind: int, s1: int, s2: int) -> bool:
     """
     every history of two edits; the first move is split over NSPLIT processes
-    pre: 0 <= cls_sel <= 1 and 1 <= kind <= 2 and 0 <= s1 < 90 and 0 <= s2 < 110
+    pre: 0 <= cls_sel <= 1 and 1 <= kind <= 2 and 0 <= s1 < 90 and 0 <= s2 < 115
     post: _
     """
     return _history(Molecule if cls_sel == 0 else Structure, kind, [s1, s2], False, SPLIT)
@@ -306,7 +324,7 @@ def h_edit2(cls_sel: int, kind: int, s1: int, s2: int) -> bool:
 def h_edit3_adddel(kind: int, s1: int, s2: int, s3: int) -> bool:
     """
     every history of three edits over the add/delete subset (Molecule)
-    pre: 0 <= kind <= 2 and 0 <= s1 < 20 and 0 <= s2 < 22 and 0 <= s3 < 24
+    pre: 0 <= kind <= 2 and 0 <= s1 < 20 and 0 <= s2 < 25 and 0 <= s3 < 27
     post: _
     """
     return _history(Molecule, kind, [s1, s2, s3], True, SPLIT)
@@ -315,7 +333,7 @@ def h_edit3_adddel(kind: int, s1: int, s2: int, s3: int) -> bool:
 def h_edit2_quick(s1: int, s2: int) -> bool:
     """
     two-edit histories over the add/delete subset from the loaded molecule (quick tier)
-    pre: 0 <= s1 < 20 and 0 <= s2 < 22
+    pre: 0 <= s1 < 20 and 0 <= s2 < 25
     post: _
     """
     return _history(Molecule, 1, [s1, s2], True, SPLIT)
@@ -332,7 +350,7 @@ def run(rep, tier):
     from engine import xh
     rep.encoded = ENCODED
     rep.bounds = {"start states": "empty, loaded from a 5-atom mol2 text, clone", "classes": "Molecule, Structure",
-                  "operations": "add_atom (charge given / omitted), new_atom, del_atom by object / index (-2..n+1) / label / Element, connect, append_bond (own atoms / a foreign atom), del_bond, remove_substituent (objects / indices), add_implicit_hydrogens",
+                  "operations": "add_atom (charge given / omitted), new_atom, del_atom by object / index (-2..n+1) / label / Element, connect, append_bond (own atoms / a foreign atom), del_bond, remove_substituent (objects / indices), add_implicit_hydrogens; connect / del_atom with a stale reference to an atom deleted earlier",
                   "history length": "1 (all), 2 (quick: add/delete subset; thorough: all), 3 (thorough, add/delete subset)"}
     rep.outside = ["histories longer than 3; the random length-40 histories of the quantifier are not reproduced (that would be sampling)",
                    "Conformer / Substructure views", "[selector-bound]: the symbolic variables are selectors over the finite menu of applicable moves; the solver enumerates them"]
